@@ -107,7 +107,7 @@ func ParseSpecFile(path, pkgName, pkgPath string, sf *SpecFile) error {
 	var clauses []raw
 	for i, ln := range strings.Split(string(data), "\n") {
 		t := strings.TrimSpace(ln)
-		if !strings.HasPrefix(t, "//@") {
+		if !strings.HasPrefix(t, "//@") || strings.HasPrefix(t, "//@@") {
 			continue
 		}
 		body := strings.TrimPrefix(t, "//@")
